@@ -17,7 +17,8 @@ RULE = ("Round-trip cases: batches of 300 generated chunks of every class (DATA 
         "length x several interiors (quick) / 16 interiors (thorough); short packets additionally get ALL interiors for "
         "lengths <= 8 (quick) / <= 12 (thorough). parse_packet must raise ValueError('...checksum') and no chunk "
         "constructor may run (counting wrappers in CHUNK_TYPES). Non-trivial/distinct = distinct (class, residue, size class) "
-        "for round trips and distinct (packet, position, length, interior) bursts.")
+        "for round trips and distinct (packet, position, length, interior) bursts."
+        " Also: bursts aimed at the checksum field itself; a chunk serialised once, given new field values and serialised again must equal a fresh chunk; 'transport' cases run lossy mixed-reliability SCTP programs and compare the public fields of every chunk handed to RTCSctpTransport._send_chunk with what the datagram on the link parses back to.")
 ASSUMPTIONS = [
     "google-crc32c trusted to compute CRC-32c; the monitor checks the implementation around it (byte order, zeroed field, coverage)",
     "field values are generated inside their wire ranges",
